@@ -66,6 +66,8 @@ def obligations(ctx, tier):
                                       arith.reps(A, "TT", (lambda fn, A=A: lambda W, env: ("val", W.wrap(A, fn(env[0].v, env[1].v))))(fn)))
                 out += core.g_row(K, PROP, inh(A, "bit"),
                                   arith.reps(A, "Ts", (lambda A=A: lambda W, env: ("val", bool((env[0].v >> env[1].v) & 1)) if env[1].v < W.bits(A) else ("normal",))()))
+                # bits() of a signed value is the bit length of its two's-complement pattern (BITS for every negative value)
+                out += core.g_row(K, PROP, inh(A, "bits"), arith.reps(A, "T", u32(lambda W, p, w: p.bit_length())))
                 out += core.g_row(K, PROP, inh(A, "is_zero"), arith.reps(A, "T", lambda W, env: ("val", env[0].v == 0)))
                 out += core.g_row(K, PROP, inh(A, "is_one"), arith.reps(A, "T", lambda W, env: ("val", env[0].v == 1)))
             else:
